@@ -67,13 +67,14 @@ def run(chk):
     rng = random.Random(chk.seed * 7919 + 1)
     n = 1500 if chk.tier == 'quick' else 20000
     texts = gen.all_texts('ab', 4) + [gen.T(x) for x in ['A', 'Ab', 'aB', 'aaab', 'ababa', 'aabb', 'AB', 'abbab']]
+    btexts = gen.all_texts('a\x00', 3) + [gen.T(x) for x in ['ab\x00', 'a\xff', '\xff\x00a', 'aa\x00\x00', 'ba\xff\xff']]
     rcases = []
     for i in range(n):
         bm = (i % 4 == 3)
         cg = gen.CoreGen(rng, bytes_mode=bm)
         g = cg.grammar(3 if i % 3 else 4)
         rcases.append({'id': i, 'g': g, 'cfg': {'bytes': bm, 'prop': 'C01'},
-                       'runs': [['start', t, 0] for t in texts]})
-    pegcheck.with_oracle(chk, rcases)
+                       'runs': [['start', t, 0] for t in (texts[:40] + btexts if bm else texts)]})
+    pegcheck.with_oracle(chk, rcases, module='OracleVM')      # PegSem's results + VMAgrees (PegVM refines them)
     chk.notes['random_grammars'] = len(rcases)
     pegcheck.replay(chk, rcases)
